@@ -142,42 +142,68 @@ Proof.
   eapply take_env_caps_actors; eauto.
 Qed.
 
+Lemma actors_emit s e : actors (emit s e) = actors s. Proof. reflexivity. Qed.
+Lemma actors_push_main s c : actors (push_main s c) = actors s. Proof. reflexivity. Qed.
+Lemma actors_push_frame s c l : actors (push_frame s c l) = actors s. Proof. reflexivity. Qed.
+Lemma actors_set_alive s v : actors (set_alive s v) = actors s. Proof. reflexivity. Qed.
+Lemma actors_set_now s v : actors (set_now s v) = actors s. Proof. reflexivity. Qed.
+Lemma actors_set_start s v : actors (set_start s v) = actors s. Proof. reflexivity. Qed.
+Lemma actors_set_mainq s v : actors (set_mainq s v) = actors s. Proof. reflexivity. Qed.
+Lemma actors_set_lazyq s v : actors (set_lazyq s v) = actors s. Proof. reflexivity. Qed.
+Lemma actors_set_idleq s v : actors (set_idleq s v) = actors s. Proof. reflexivity. Qed.
+Lemma actors_set_timers s v : actors (set_timers s v) = actors s. Proof. reflexivity. Qed.
+Lemma actors_set_tnext s v : actors (set_tnext s v) = actors s. Proof. reflexivity. Qed.
+Lemma actors_set_tvars s v : actors (set_tvars s v) = actors s. Proof. reflexivity. Qed.
+Lemma actors_set_recreate s v : actors (set_recreate s v) = actors s. Proof. reflexivity. Qed.
+Lemma actors_set_fwds s v : actors (set_fwds s v) = actors s. Proof. reflexivity. Qed.
+Lemma actors_set_env s v : actors (set_env s v) = actors s. Proof. reflexivity. Qed.
+Lemma actors_set_frames s v : actors (set_frames s v) = actors s. Proof. reflexivity. Qed.
+Lemma actors_set_nuid s v : actors (set_nuid s v) = actors s. Proof. reflexivity. Qed.
+Lemma actors_set_logseq s v : actors (set_logseq s v) = actors s. Proof. reflexivity. Qed.
+Lemma actors_set_logfilter s v : actors (set_logfilter s v) = actors s. Proof. reflexivity. Qed.
+Lemma actors_set_haslogger s v : actors (set_haslogger s v) = actors s. Proof. reflexivity. Qed.
+Lemma actors_set_shut s v : actors (set_shut s v) = actors s. Proof. reflexivity. Qed.
+
 Ltac nule_step :=
   lazymatch goal with
-  | |- nule _ ?s ?s => apply nule_refl
-  | |- nule _ _ (emit ?s _) => apply (nule_same _ _ s); [ | reflexivity ]
+  | |- nule _ _ (emit ?s _) => apply (nule_same _ _ s); [ | apply actors_emit ]
   | |- nule _ _ (submit ?s _ _) => apply (nule_same _ _ s); [ | apply submit_actors ]
-  | |- nule _ _ (push_main ?s _) => apply (nule_same _ _ s); [ | reflexivity ]
-  | |- nule _ _ (timer_add ?s _ _ _ _) => apply (nule_same _ _ s); [ | reflexivity ]
-  | |- nule _ _ (push_frame ?s _ _) => apply (nule_same _ _ s); [ | reflexivity ]
+  | |- nule _ _ (push_main ?s _) => apply (nule_same _ _ s); [ | apply actors_push_main ]
+  | |- nule _ _ (timer_add ?s _ _ _ _) => apply (nule_same _ _ s); [ | apply timer_add_actors ]
+  | |- nule _ _ (push_frame ?s _ _) => apply (nule_same _ _ s); [ | apply actors_push_frame ]
   | |- nule _ _ (target_ev ?s _) => apply (nule_same _ _ s); [ | apply target_ev_actors ]
   | |- nule _ _ (tok_script ?s _) => apply (nule_same _ _ s); [ | apply tok_script_actors ]
   | |- nule _ _ (log_rec _ _ _ _ _) => apply nule_log_rec
   | |- nule _ _ (ref_clone _ _) => apply nule_ref_clone
-  | |- nule _ _ (set_alive ?s _) => apply (nule_same _ _ s); [ | reflexivity ]
-  | |- nule _ _ (set_now ?s _) => apply (nule_same _ _ s); [ | reflexivity ]
-  | |- nule _ _ (set_start ?s _) => apply (nule_same _ _ s); [ | reflexivity ]
-  | |- nule _ _ (set_mainq ?s _) => apply (nule_same _ _ s); [ | reflexivity ]
-  | |- nule _ _ (set_lazyq ?s _) => apply (nule_same _ _ s); [ | reflexivity ]
-  | |- nule _ _ (set_idleq ?s _) => apply (nule_same _ _ s); [ | reflexivity ]
-  | |- nule _ _ (set_timers ?s _) => apply (nule_same _ _ s); [ | reflexivity ]
-  | |- nule _ _ (set_tnext ?s _) => apply (nule_same _ _ s); [ | reflexivity ]
-  | |- nule _ _ (set_tvars ?s _) => apply (nule_same _ _ s); [ | reflexivity ]
-  | |- nule _ _ (set_recreate ?s _) => apply (nule_same _ _ s); [ | reflexivity ]
-  | |- nule _ _ (set_fwds ?s _) => apply (nule_same _ _ s); [ | reflexivity ]
-  | |- nule _ _ (set_env ?s _) => apply (nule_same _ _ s); [ | reflexivity ]
-  | |- nule _ _ (set_frames ?s _) => apply (nule_same _ _ s); [ | reflexivity ]
-  | |- nule _ _ (set_nuid ?s _) => apply (nule_same _ _ s); [ | reflexivity ]
-  | |- nule _ _ (set_logseq ?s _) => apply (nule_same _ _ s); [ | reflexivity ]
-  | |- nule _ _ (set_logfilter ?s _) => apply (nule_same _ _ s); [ | reflexivity ]
-  | |- nule _ _ (set_haslogger ?s _) => apply (nule_same _ _ s); [ | reflexivity ]
-  | |- nule _ _ (set_shut ?s _) => apply (nule_same _ _ s); [ | reflexivity ]
+  | |- nule _ _ (set_alive ?s _) => apply (nule_same _ _ s); [ | apply actors_set_alive ]
+  | |- nule _ _ (set_now ?s _) => apply (nule_same _ _ s); [ | apply actors_set_now ]
+  | |- nule _ _ (set_start ?s _) => apply (nule_same _ _ s); [ | apply actors_set_start ]
+  | |- nule _ _ (set_mainq ?s _) => apply (nule_same _ _ s); [ | apply actors_set_mainq ]
+  | |- nule _ _ (set_lazyq ?s _) => apply (nule_same _ _ s); [ | apply actors_set_lazyq ]
+  | |- nule _ _ (set_idleq ?s _) => apply (nule_same _ _ s); [ | apply actors_set_idleq ]
+  | |- nule _ _ (set_timers ?s _) => apply (nule_same _ _ s); [ | apply actors_set_timers ]
+  | |- nule _ _ (set_tnext ?s _) => apply (nule_same _ _ s); [ | apply actors_set_tnext ]
+  | |- nule _ _ (set_tvars ?s _) => apply (nule_same _ _ s); [ | apply actors_set_tvars ]
+  | |- nule _ _ (set_recreate ?s _) => apply (nule_same _ _ s); [ | apply actors_set_recreate ]
+  | |- nule _ _ (set_fwds ?s _) => apply (nule_same _ _ s); [ | apply actors_set_fwds ]
+  | |- nule _ _ (set_env ?s _) => apply (nule_same _ _ s); [ | apply actors_set_env ]
+  | |- nule _ _ (set_frames ?s _) => apply (nule_same _ _ s); [ | apply actors_set_frames ]
+  | |- nule _ _ (set_nuid ?s _) => apply (nule_same _ _ s); [ | apply actors_set_nuid ]
+  | |- nule _ _ (set_logseq ?s _) => apply (nule_same _ _ s); [ | apply actors_set_logseq ]
+  | |- nule _ _ (set_logfilter ?s _) => apply (nule_same _ _ s); [ | apply actors_set_logfilter ]
+  | |- nule _ _ (set_haslogger ?s _) => apply (nule_same _ _ s); [ | apply actors_set_haslogger ]
+  | |- nule _ _ (set_shut ?s _) => apply (nule_same _ _ s); [ | apply actors_set_shut ]
   | |- nule _ _ (if ?b then _ else _) => destruct b
-  | |- nule _ _ (upd_actor _ _ (with_rc _ _)) => eapply nule_upd_keep; [ | eassumption | left; reflexivity ]
-  | |- nule _ _ (upd_actor _ _ (with_strong _ _)) => eapply nule_upd_keep; [ | eassumption | left; reflexivity ]
-  | |- nule _ _ (upd_actor _ _ (with_state _ _)) => eapply nule_upd_keep; [ | eassumption | left; reflexivity ]
-  | |- nule _ _ (upd_actor _ _ (mkActor _ _ _ None _ _)) => eapply nule_upd_keep; [ | eassumption | right; reflexivity ]
-  | |- nule _ _ (upd_actor _ _ (mkActor _ _ _ (a_notify _) _ _)) => eapply nule_upd_keep; [ | eassumption | left; reflexivity ]
+  | |- nule _ _ (upd_actor ?s ?a (with_rc ?y _)) =>
+      match goal with A : aget (actors s) a = Some y |- _ => apply (nule_upd_keep _ _ s a y); [ | exact A | left; reflexivity ] end
+  | |- nule _ _ (upd_actor ?s ?a (with_strong ?y _)) =>
+      match goal with A : aget (actors s) a = Some y |- _ => apply (nule_upd_keep _ _ s a y); [ | exact A | left; reflexivity ] end
+  | |- nule _ _ (upd_actor ?s ?a (with_state ?y _)) =>
+      match goal with A : aget (actors s) a = Some y |- _ => apply (nule_upd_keep _ _ s a y); [ | exact A | left; reflexivity ] end
+  | |- nule _ _ (upd_actor ?s ?a (mkActor _ _ _ None _ _)) =>
+      match goal with A : aget (actors s) a = Some ?y |- _ => apply (nule_upd_keep _ _ s a y); [ | exact A | right; reflexivity ] end
+  | |- nule _ _ (upd_actor ?s ?a (mkActor _ _ _ (a_notify ?y) _ _)) =>
+      match goal with A : aget (actors s) a = Some y |- _ => apply (nule_upd_keep _ _ s a y); [ | exact A | left; reflexivity ] end
   | |- nule _ _ ?s' =>
       match goal with
       | H : take _ _ = (_, s') |- _ => eapply nule_same; [ | exact (take_actors _ _ _ _ H) ]
@@ -187,6 +213,7 @@ Ltac nule_step :=
       | H : inst _ _ _ = (_, s') |- _ => eapply nule_same; [ | exact (inst_actors _ _ _ _ _ H) ]
       | H : inst_call _ _ _ = (_, s') |- _ => eapply nule_same; [ | exact (inst_call_actors _ _ _ _ _ H) ]
       | H : inst_nocaps _ _ _ = (_, s') |- _ => eapply nule_same; [ | exact (inst_nocaps_actors _ _ _ _ _ H) ]
+      | _ => is_var s'; apply nule_refl
       end
   end.
 
@@ -282,9 +309,12 @@ Proof.
   - intros Q; inj_pair Q; nule_tac.
   - intros Q; inj_pair Q; nule_tac.
   - unfold terminate. destruct (aget (actors s) a) as [y|] eqn:A; [|intros Q; inj_pair Q; nule_tac].
-    destruct (a_freed y);
-      (destruct (state_drops a (a_state y) _) as [dl s2] eqn:SD; destruct (state_drops_nu _ _ _ _ _ SD) as [-> _];
-       destruct (a_notify y); intros Q; inj_pair Q; nule_tac).
+    destruct (state_drops a (a_state y) _) as [dl s2] eqn:SD. destruct (state_drops_nu _ _ _ _ _ SD) as [-> _].
+    assert (G : nule (nuid s) s (upd_actor (if a_freed y then emit s (EModel M_UAF a) else s) a
+                 (mkActor SZombie (oz (count_set_state (a_strong y) STATE_ZOMBIE)) (a_rc y) None (a_logid y) (a_freed y)))).
+    { apply (nule_upd_keep _ _ _ _ y); [destruct (a_freed y); [eapply nule_same; [apply nule_refl | reflexivity] | apply nule_refl]
+                                        | destruct (a_freed y); exact A | right; reflexivity]. }
+    destruct (a_notify y); intros Q; inj_pair Q; exact G.
   - destruct (aget (actors s) a); intros Q; inj_pair Q; nule_tac.
   - destruct (aget (actors s) a) as [y|] eqn:A; [destruct (a_state y)|]; intros Q; inj_pair Q; nule_tac.
   - unfold fresh_stakker. intros Q; inj_pair Q; nule_tac.
@@ -301,4 +331,82 @@ Proof.
   - intros Q; inj_pair Q. eapply nule_same; [apply nule_refl|]. simpl.
     unfold class_flags. generalize (class_flag (actors s)). intros f. generalize (actors s) at 1. intros l. revert s.
     induction l as [|p l IH]; intros s; simpl; auto. rewrite IH. unfold emit_opt. destruct (f p); reflexivity.
+Qed.
+
+Lemma NB_state mo s : NB mo s -> cst RBad s = 0.
+Proof. unfold NB. pose proof (cmop_nn RBad mo). pose proof (cst_nn RBad s). lia. Qed.
+
+(** notifier invocations pushed by a step come from the head micro-op or from a notifier field *)
+Lemma handle_nupre mo s pre s' :
+  NB mo s -> handle mo s = (pre, s') -> forall u, In u (nu_k pre) -> In u (nu_mop mo) \/ In u (nu_acts (actors s)).
+Proof.
+  intros NBH. pose proof (NB_state _ _ NBH) as NBS. pose proof (NB_mop _ _ NBH) as NBM.
+  assert (NIL : nu_k pre = [] -> forall u, In u (nu_k pre) -> In u (nu_mop mo) \/ In u (nu_acts (actors s))).
+  { intros E u H. rewrite E in H. contradiction. }
+  destruct mo; cbn [handle].
+  - unfold do_top. destruct o; repeat dest_match; intros Q; inj_pair Q; apply NIL; nupre_tac.
+  - destruct l as [|a l]; [intros Q; inj_pair Q; apply NIL; nupre_tac|]. destruct (do_act a s) as [p s1] eqn:E.
+    intros Q; inversion Q; subst. apply NIL. rewrite nu_k_app, (do_act_nupre _ _ _ _ NBS E). reflexivity.
+  - destruct (frames s); intros Q; inj_pair Q; apply NIL; nupre_tac.
+  - destruct (frames s) as [|fr rest]; intros Q; inj_pair Q; apply NIL; [nupre_tac|].
+    rewrite nu_k_app, nu_drops. destruct f; try destruct (f_die fr); try destruct ready; reflexivity.
+  - unfold run_item. destruct c as [u0 i kd caps q]. destruct kd; repeat dest_match; intros Q; inj_pair Q; apply NIL; nupre_tac.
+  - unfold drop_item. destruct c as [u0 i kd caps q]. destruct kd; intros Q; inj_pair Q; apply NIL; nupre_tac.
+  - intros Q; inj_pair Q; apply NIL; nupre_tac.
+  - unfold drop_val. destruct v; repeat dest_match; intros Q; inj_pair Q; apply NIL; try nupre_tac.
+    (* HRet: a user Ret *)
+    cbn [nu_k flat_map nu_mop]. rewrite ukind_no_inner; [reflexivity|].
+    apply nb_real. cbn [cmop] in NBM. rewrite cv_ret in NBM. pose proof (cret_nn RBad r). pose proof (badif_nn RBad (ukind r)). lia.
+  - unfold drop_own. destruct logged; repeat dest_match; intros Q; inj_pair Q; apply NIL; nupre_tac.
+  - unfold drop_ref. destruct (aget (actors s) a) as [y|] eqn:A; [|intros Q; inj_pair Q; apply NIL; nupre_tac].
+    destruct (a_freed y); [intros Q; inj_pair Q; apply NIL; nupre_tac|].
+    destruct (minrc_drop (a_rc y)) as [[v z]|]; [|intros Q; inj_pair Q; apply NIL; nupre_tac].
+    destruct z; [|intros Q; inj_pair Q; apply NIL; nupre_tac].
+    destruct (state_drops a (a_state y) _) as [dl s2] eqn:SD. destruct (state_drops_nu _ _ _ _ _ SD) as [-> ND].
+    intros Q; inj_pair Q. intros u. rewrite nu_k_app, ND, app_nil_r. intros H. right.
+    destruct (a_notify y) as [nt|] eqn:NT; [|contradiction]. cbn [nu_k flat_map nu_mop] in H. rewrite app_nil_r in H.
+    eapply nu_acts_aget; eauto. rewrite NT. exact H.
+  - (* MRetInvoke *)
+    unfold ret_invoke. destruct r as [rid k]. destruct k as [caps b|a ci|a ci|a inner|p key inner].
+    + intros Q; inj_pair Q; apply NIL; nupre_tac.
+    + intros Q; inj_pair Q; apply NIL; nupre_tac.
+    + destruct m; intros Q; inj_pair Q; apply NIL; nupre_tac.
+    + destruct inner as [[p ci]|]; intros Q; inj_pair Q; apply NIL; nupre_tac.
+    + destruct m; intros Q; inj_pair Q; intros u H; left; cbn [nu_k flat_map nu_mop app] in *; rewrite ?app_nil_r in H; exact H.
+  - intros Q; inj_pair Q; apply NIL; nupre_tac.
+  - intros Q; inj_pair Q; apply NIL; nupre_tac.
+  - intros Q; inj_pair Q; apply NIL; nupre_tac.
+  - intros Q; inj_pair Q; apply NIL; nupre_tac.
+  - (* MTerminate *)
+    unfold terminate. destruct (aget (actors s) a) as [y|] eqn:A; [|intros Q; inj_pair Q; apply NIL; nupre_tac].
+    destruct (state_drops a (a_state y) _) as [dl s2] eqn:SD. destruct (state_drops_nu _ _ _ _ _ SD) as [-> ND].
+    destruct (a_notify y) as [nt|] eqn:NT; intros Q; inj_pair Q; [|apply NIL; exact ND].
+    intros u. rewrite nu_k_app, ND. cbn [nu_k flat_map nu_mop app]. rewrite app_nil_r. intros H. right.
+    eapply nu_acts_aget; eauto. rewrite NT. exact H.
+  - destruct (aget (actors s) a); intros Q; inj_pair Q; apply NIL; nupre_tac.
+  - destruct (aget (actors s) a) as [y|] eqn:A; [destruct (a_state y)|]; intros Q; inj_pair Q; apply NIL; nupre_tac.
+  - intros Q; inj_pair Q; apply NIL; nupre_tac.
+  - destruct idle; [destruct (idleq s)|]; intros Q; inj_pair Q; apply NIL; nupre_tac.
+  - destruct (t >? now (set_mainq s [])).
+    + destruct (fire t _) as [fired s2] eqn:FI. intros Q; inj_pair Q; apply NIL; nupre_tac.
+    + intros Q; inj_pair Q; apply NIL; nupre_tac.
+  - repeat dest_match; intros Q; inj_pair Q; apply NIL; nupre_tac.
+  - repeat dest_match; intros Q; inj_pair Q; apply NIL; nupre_tac.
+  - intros Q; inj_pair Q; apply NIL. rewrite nu_k_app, nu_dropitems. reflexivity.
+  - repeat dest_match; intros Q; inj_pair Q; apply NIL; nupre_tac.
+  - repeat dest_match; intros Q; inj_pair Q; apply NIL; nupre_tac.
+  - intros Q; inj_pair Q; apply NIL; nupre_tac.
+  - intros Q; inj_pair Q; apply NIL; nupre_tac.
+Qed.
+
+(** the notifier call uids after a step: old ones or fresh ones *)
+Theorem handle_nu mo k0 s pre s' :
+  NB mo s -> handle mo s = (pre, s') ->
+  forall u, In u (NU (pre ++ k0) s') -> In u (NU (mo :: k0) s) \/ (nuid s <= u)%N.
+Proof.
+  intros NBH E u H. unfold NU in *. rewrite nu_k_app in H. apply in_app_or in H as [H|H].
+  - apply in_app_or in H as [H|H].
+    + destruct (handle_nupre _ _ _ _ NBH E u H) as [G|G]; left; apply in_or_app; [left; simpl; apply in_or_app; left; exact G | right; exact G].
+    + left. apply in_or_app. left. simpl. apply in_or_app. right. exact H.
+  - destruct (handle_nule _ _ _ _ E u H) as [G|G]; [left; apply in_or_app; right; exact G | right; exact G].
 Qed.
